@@ -1,3 +1,5 @@
 MODULES = [
     'contracts.c_cpu_arith',
+    'contracts.c_memlayout',
+    'contracts.c_memory',
 ]
